@@ -147,7 +147,12 @@ func valJSON(v Val) interface{} {
 	case "s":
 		return "s" + strconv.Itoa(v.S)
 	case "a":
-		return []interface{}{"e" + strconv.Itoa(v.S), int64(v.S)}
+		out := []interface{}{}
+		for _, x := range v.norm().L {
+			out = append(out, valJSON(x))
+		}
+
+		return out
 	default:
 		return v.B
 	}
@@ -155,6 +160,10 @@ func valJSON(v Val) interface{} {
 
 // keyPath is the dotted member path of a leaf key below credentialSubject.
 func keyPath(k int) string {
+	if k >= 1000 {
+		return keyPath(k%1000) + "[" + strconv.Itoa(k/1000-1) + "]"
+	}
+
 	if k >= 100 {
 		return "o" + strconv.Itoa(k/100) + ".a" + strconv.Itoa(k%100)
 	}
@@ -572,18 +581,12 @@ func projVal(v interface{}) Val {
 	case nil:
 		return Val{T: "z"}
 	case []interface{}:
-		// arrays are [ "e<code>", code ]; anything else (re-indexed, truncated) projects to another code
-		if len(x) == 2 {
-			if s0, ok := x[0].(string); ok {
-				if n, ok := atoiSuffix(s0, "e"); ok {
-					if f, ok := x[1].(float64); ok && int(f) == n {
-						return Val{T: "a", S: n}
-					}
-				}
-			}
+		out := Val{T: "a", L: []Val{}}
+		for _, e := range x {
+			out.L = append(out.L, projVal(e))
 		}
 
-		return Val{T: "a", S: 900 + len(x)}
+		return out
 	default:
 		return Val{T: "s", S: 999}
 	}
